@@ -9,9 +9,9 @@ package main
 // C10  pkg dec of mutated encodings and of arbitrary bytes after every token: never `panic`.
 
 import (
-	"strconv"
 	"fmt"
 	"math/rand"
+	"strconv"
 	"strings"
 	"sync"
 	"time"
@@ -469,7 +469,7 @@ func init() {
 			return clause
 		},
 		Nontrivial: pkgNontrivial, NoShrink: true, Timeout: 30 * time.Second,
-		Rule: "for every package kind of the codec registry (LookupPackage's tokens) the kind's generator (all optional parts on/off, string lengths at the prefix boundaries, status bits, random values): real WriteTo vs the Lean encoder; write-then-read on the real code and on the model (fields up to the documented normalisation, consumed = written); independent TDS-layout encoder → real ReadFrom for packages a server sends; real WriteTo → independent decoder for packages a client sends. Non-trivial = the line is a well-formed case",
+		Rule:        "for every package kind of the codec registry (LookupPackage's tokens) the kind's generator (all optional parts on/off, string lengths at the prefix boundaries, status bits, random values): real WriteTo vs the Lean encoder; write-then-read on the real code and on the model (fields up to the documented normalisation, consumed = written); independent TDS-layout encoder → real ReadFrom for packages a server sends; real WriteTo → independent decoder for packages a client sends. Non-trivial = the line is a well-formed case",
 		Assumptions: []string{"the PacketQueue is a byte FIFO (C15)", "a package is compared by its serialised fields (canonical rendering), not by Go struct identity"},
 	})
 	register(&Prop{
@@ -485,7 +485,7 @@ func init() {
 			return clause
 		},
 		Nontrivial: pkgNontrivial, NoShrink: true, Timeout: 30 * time.Second,
-		Rule: "every valid encoding produced by the registry generators (real WriteTo and the independent encoders) × every proper prefix of it (all prefixes up to 400 bytes, first/last 64 and 60 random cuts beyond), decoded by the real ReadFrom on a bounded queue and by the Lean decoder: must be not-enough-bytes; then the complete bytes; channel leg: a sample of the encodings of every kind (after their format where needed, followed by a DONE) through the real Channel.WritePacket cut inside the package at three positions, compared with the uncut response. value level: GoValue on every data type byte 0..255 with every data length 0..255 (zero, 0xff and random data) vs the Lean value model. Non-trivial = well-formed case",
+		Rule:        "every valid encoding produced by the registry generators (real WriteTo and the independent encoders) × every proper prefix of it (all prefixes up to 400 bytes, first/last 64 and 60 random cuts beyond), decoded by the real ReadFrom on a bounded queue and by the Lean decoder: must be not-enough-bytes; then the complete bytes; channel leg: a sample of the encodings of every kind (after their format where needed, followed by a DONE) through the real Channel.WritePacket cut inside the package at three positions, compared with the uncut response. value level: GoValue on every data type byte 0..255 with every data length 0..255 (zero, 0xff and random data) vs the Lean value model. Non-trivial = well-formed case",
 		Assumptions: []string{"a fresh package object per attempt, as tryParsePackage does (LookupPackage inside the retry loop)"},
 	})
 	register(&Prop{
@@ -498,7 +498,7 @@ func init() {
 			return clause
 		},
 		Nontrivial: pkgNontrivial, NoShrink: true, Timeout: 30 * time.Second,
-		Rule: "valid encodings of every package kind with every byte (sampled on long ones) replaced by 00/01/7f/80/fe/ff, random multi-byte mutations with truncation and trailing garbage, hostile 2- and 4-byte little-endian values (0x7fffffff, 0x80000000, 0xffffffff, 0x7fff, 0x8000, 0xffff) at every offset of the first 28 bytes of encodings sampled evenly over every kind's generator (every data type of the format and data packages), and arbitrary bytes after each of the 256 token values; real ReadFrom under recover vs the Lean decoder (outcome class and fields must agree); packet level: the reader loop (Packet.ReadFrom per iteration) on streams of 1..3 packets with every announced length 0..16, every header type/status value, random header fields, truncations and read schedules vs the Lean reader model. value level: GoValue on every data type byte 0..255 with every data length 0..255 (zero, 0xff and random data) vs the Lean value model; allocation probe: every 60th (thorough: 12th) hostile-length case again in a process of its own that measures what it allocates. Non-trivial = well-formed case",
+		Rule:        "valid encodings of every package kind with every byte (sampled on long ones) replaced by 00/01/7f/80/fe/ff, random multi-byte mutations with truncation and trailing garbage, hostile 2- and 4-byte little-endian values (0x7fffffff, 0x80000000, 0xffffffff, 0x7fff, 0x8000, 0xffff) at every offset of the first 28 bytes of encodings sampled evenly over every kind's generator (every data type of the format and data packages), and arbitrary bytes after each of the 256 token values; real ReadFrom under recover vs the Lean decoder (outcome class and fields must agree); packet level: the reader loop (Packet.ReadFrom per iteration) on streams of 1..3 packets with every announced length 0..16, every header type/status value, random header fields, truncations and read schedules vs the Lean reader model. value level: GoValue on every data type byte 0..255 with every data length 0..255 (zero, 0xff and random data) vs the Lean value model; allocation probe: every 60th (thorough: 12th) hostile-length case again in a process of its own that measures what it allocates. Non-trivial = well-formed case",
 		NoModel:     func(line string) bool { return strings.HasPrefix(line, "mem ") },
 		Assumptions: []string{"allocation: PacketQueue.Bytes checks availability before allocating (fix 31957a3); measured for a sample of the hostile-length cases in a process of its own (TotalAlloc while decoding <= 4 MiB + 300 x case length, address space limited to 3 GiB)"},
 	})
